@@ -6,6 +6,7 @@ Local Open Scope list_scope.
 Section Lemmas.
 Variable term : Type.
 Variable fields_tables : term -> list (option tbl).
+Variable find_tables : term -> list (option tbl).
 Variable and_ : term -> term -> term.
 Variable is_empty : term -> bool.
 Variable field_of : string -> option tbl -> term.
@@ -16,13 +17,13 @@ Variable sel_table : term -> option (option tbl).
 Variable mk_rollup : list term -> term.
 Variable rollup_args : term -> option (list term).
 
-Notation stp := (step term fields_tables and_ is_empty field_of wrap_int star is_star sel_table mk_rollup rollup_args).
-Notation rn := (run term fields_tables and_ is_empty field_of wrap_int star is_star sel_table mk_rollup rollup_args).
+Notation stp := (step term fields_tables find_tables and_ is_empty field_of wrap_int star is_star sel_table mk_rollup rollup_args).
+Notation rn := (run term fields_tables find_tables and_ is_empty field_of wrap_int star is_star sel_table mk_rollup rollup_args).
 Notation kof := (kind_of term).
 Notation eqv := (equiv term).
-Notation sjoin := (step_join term fields_tables).
+Notation sjoin := (step_join term find_tables).
 Notation vtab := (validate_table term fields_tables).
-Notation cmpt := (compat term fields_tables).
+Notation cmpt := (compat term find_tables).
 
 (* ---- slot sets ------------------------------------------------------------------------------ *)
 Lemma smem_app : forall x a b, smem x (a ++ b) = smem x a || smem x b.
@@ -49,22 +50,22 @@ Proof.
   intros c1 c2 s a b Hi H1 H2.
   unfold independent in Hi. apply andb_true_iff in Hi. destruct Hi as [D1 D2].
   pose proof (disjoint_spec _ _ D1) as N1. pose proof (disjoint_spec _ _ D2) as N2.
-  assert (W1 := step_writes _ _ _ _ _ _ _ _ _ _ _ c1 s a H1).
+  assert (W1 := step_writes _ _ _ _ _ _ _ _ _ _ _ _ c1 s a H1).
   (* c2 from s *)
   assert (R2 : agree_out term (kof c2) (stp a c2) (stp s c2)).
   { apply step_reads. intros x Hx. apply eq_on_sym. apply W1.
     destruct (smem x (writes (kof c1))) eqn:E; [|reflexivity]. rewrite (N1 x E) in Hx. discriminate. }
   rewrite H2 in R2. unfold agree_out in R2.
   destruct (stp s c2) as [a'|e] eqn:H2'; [|contradiction].
-  assert (W2 := step_writes _ _ _ _ _ _ _ _ _ _ _ c2 s a' H2').
+  assert (W2 := step_writes _ _ _ _ _ _ _ _ _ _ _ _ c2 s a' H2').
   assert (R1 : agree_out term (kof c1) (stp s c1) (stp a' c1)).
   { apply step_reads. intros x Hx. apply W2.
     destruct (smem x (writes (kof c2))) eqn:E; [|reflexivity]. rewrite (N2 x E) in Hx. discriminate. }
   rewrite H1 in R1. unfold agree_out in R1.
   destruct (stp a' c1) as [b'|e] eqn:H1'; [|contradiction].
   exists a'. split; [reflexivity|]. rewrite H1'. f_equal.
-  assert (W1' := step_writes _ _ _ _ _ _ _ _ _ _ _ c1 a' b' H1').
-  assert (W2' := step_writes _ _ _ _ _ _ _ _ _ _ _ c2 a b H2).
+  assert (W1' := step_writes _ _ _ _ _ _ _ _ _ _ _ _ c1 a' b' H1').
+  assert (W2' := step_writes _ _ _ _ _ _ _ _ _ _ _ _ c2 a b H2).
   apply qstate_ext. intro x.
   destruct (smem x (writes (kof c1))) eqn:E1.
   - (* written by c1 only *)
@@ -124,9 +125,9 @@ Lemma forced_mono : forall c s t, commuting (kof c) = true -> stp s c = Ok t ->
 Proof.
   intros c s t Hc H F.
   destruct c; simpl in Hc; try discriminate;
-    try (pose proof (step_writes _ _ _ _ _ _ _ _ _ _ _ _ s t H S_joins eq_refl) as Ej;
-         pose proof (step_writes _ _ _ _ _ _ _ _ _ _ _ _ s t H S_from eq_refl) as Ef;
-         pose proof (step_writes _ _ _ _ _ _ _ _ _ _ _ _ s t H S_update_table eq_refl) as Eu;
+    try (pose proof (step_writes _ _ _ _ _ _ _ _ _ _ _ _ _ s t H S_joins eq_refl) as Ej;
+         pose proof (step_writes _ _ _ _ _ _ _ _ _ _ _ _ _ s t H S_from eq_refl) as Ef;
+         pose proof (step_writes _ _ _ _ _ _ _ _ _ _ _ _ _ s t H S_update_table eq_refl) as Eu;
          simpl in Ej, Ef, Eu; unfold forced in *; rewrite <- Ej, <- Ef, <- Eu; exact F).
   cbn [step] in H. unfold bind in H.
   destruct (sjoin (q_from term s) (q_update_table term s) (q_with term s) (q_joins term s)
@@ -152,8 +153,8 @@ Proof.
     apply eq_on_trans with s'; [apply E; exact Hx|]. eapply step_writes; eauto. }
   split; [exact P1|].
   pose proof (not_in_deps_writes _ _ Hnf) as Hnw.
-  pose proof (step_writes _ _ _ _ _ _ _ _ _ _ _ c s t H S_foreign_table Hnw) as F1.
-  pose proof (step_writes _ _ _ _ _ _ _ _ _ _ _ c s' t' H' S_foreign_table Hnw) as F2.
+  pose proof (step_writes _ _ _ _ _ _ _ _ _ _ _ _ c s t H S_foreign_table Hnw) as F1.
+  pose proof (step_writes _ _ _ _ _ _ _ _ _ _ _ _ c s' t' H' S_foreign_table Hnw) as F2.
   simpl in F1, F2. unfold with_namespace_of in *. rewrite <- F1, <- F2.
   rewrite <- (forced_ext _ _ P1). rewrite <- (forced_ext _ _ E) in W.
   destruct (forced term t) eqn:Ft; [reflexivity|].
@@ -336,8 +337,8 @@ Lemma join_valid_with : forall bt joins item n tabs,
 Proof.
   intros bt joins item n tabs. unfold join_valid. induction tabs as [|ft r IH]; intro H; [reflexivity|].
   cbn [omem] in H. apply orb_false_iff in H. destruct H as [H1 H2].
-  cbn [forallb]. rewrite (IH H2). f_equal. rewrite omem_snoc.
-  rewrite (otbl_eqb_sym ft), H1. rewrite orb_false_r. reflexivity.
+  cbn [forallb]. rewrite (IH H2). f_equal. destruct ft as [t|]; [|reflexivity]. rewrite omem_snoc.
+  rewrite (otbl_eqb_sym (Some t)), H1. rewrite orb_false_r. reflexivity.
 Qed.
 
 Lemma step_join_with : forall fr upd w joins cnt item how spec n body,
@@ -482,7 +483,7 @@ Proof.
   intros x Hx. apply Ha. apply (kperm_in _ _ H). exact Hx.
 Qed.
 
-Lemma fragment_kperm : forall a b, kperm a b -> fragment term fields_tables a -> fragment term fields_tables b.
+Lemma fragment_kperm : forall a b, kperm a b -> fragment term find_tables a -> fragment term find_tables b.
 Proof.
   intros a b H Ha c1 c2 H1 H2. apply Ha; apply (kperm_in _ _ H); assumption.
 Qed.
@@ -509,7 +510,7 @@ Qed.
 Lemma all_commuting_app : forall a b, all_commuting term (a ++ b) = all_commuting term a && all_commuting term b.
 Proof. intros. unfold all_commuting. apply forallb_app. Qed.
 
-Lemma run_kperm : forall l1 l2, kperm l1 l2 -> all_commuting term l1 = true -> fragment term fields_tables l1 ->
+Lemma run_kperm : forall l1 l2, kperm l1 l2 -> all_commuting term l1 = true -> fragment term find_tables l1 ->
   forall s q1, rn s l1 = Ok q1 -> exists q2, rn s l2 = Ok q2 /\ eqv q1 q2.
 Proof.
   intros l1 l2 H. induction H; intros Hc Hf s q1 Hr.
@@ -531,14 +532,14 @@ Qed.
 
 (* any interleaving that keeps the relative order of the calls of every kind *)
 Theorem interleaving_commutes : forall s0 l1 l2,
-  all_commuting term l1 = true -> fragment term fields_tables l1 -> same_kind_order term l1 l2 ->
+  all_commuting term l1 = true -> fragment term find_tables l1 -> same_kind_order term l1 l2 ->
   forall q1, rn s0 l1 = Ok q1 -> exists q2, rn s0 l2 = Ok q2 /\ eqv q1 q2.
 Proof.
   intros s0 l1 l2 Hc Hf Hk q1 Hr.
   exact (run_kperm l1 l2 (same_kind_order_kperm l1 l2 Hk) Hc Hf s0 q1 Hr).
 Qed.
 
-Lemma fragmentb_spec : forall l, fragmentb term fields_tables l = true -> fragment term fields_tables l.
+Lemma fragmentb_spec : forall l, fragmentb term find_tables l = true -> fragment term find_tables l.
 Proof.
   intros l H c1 c2 H1 H2. unfold fragmentb in H. rewrite forallb_forall in H.
   specialize (H c1 H1). rewrite forallb_forall in H. exact (H c2 H2).
@@ -557,7 +558,7 @@ Qed.
 
 Ltac step_cases H :=
   match type of H with
-  | step _ _ _ _ _ _ _ _ _ _ _ _ ?c = _ =>
+  | step _ _ _ _ _ _ _ _ _ _ _ _ _ ?c = _ =>
       destruct c; cbn [step] in H; unfold bind in H; destr_matches H; try discriminate; inversion H; subst; try reflexivity;
       simpl; match goal with E : is_empty _ = _ |- _ => rewrite E end; reflexivity
   end.
@@ -611,9 +612,9 @@ Proof.
     destruct (IH t q Hc2 H) as [Ho Hf].
     assert (Ef : q_from term t = q_from term s).
     { destruct c; simpl in Hc1; try discriminate;
-        (symmetry; exact (step_writes _ _ _ _ _ _ _ _ _ _ _ _ s t Hs S_from eq_refl)). }
+        (symmetry; exact (step_writes _ _ _ _ _ _ _ _ _ _ _ _ _ s t Hs S_from eq_refl)). }
     split; [|congruence]. rewrite Ho, Ef. simpl. f_equal.
-    destruct c; try (exact (eq_sym (step_writes _ _ _ _ _ _ _ _ _ _ _ _ s t Hs S_orderbys eq_refl))).
+    destruct c; try (exact (eq_sym (step_writes _ _ _ _ _ _ _ _ _ _ _ _ _ s t Hs S_orderbys eq_refl))).
     cbn [step] in Hs. unfold bind in Hs.
     destruct (order_loop term field_of (q_from term s) order (q_orderbys term s) items) as [r|e] eqn:E; [|discriminate].
     inversion Hs. simpl. apply order_loop_spec in E. exact E.
